@@ -90,6 +90,13 @@ pub fn templates() -> Vec<Template> {
         },
     ];
     all.push(Template { name: "TF-no-trailing-newline", files: vec![tf] });
+    // TG: template TB (content on the tag's line, multi-byte character before the tag) with CR LF
+    // line ends.
+    let mut tg_files = all[1].files.clone();
+    for f in &mut tg_files {
+        f.crlf = true;
+    }
+    all.push(Template { name: "TG-js-crlf", files: tg_files });
     all
 }
 
@@ -349,7 +356,7 @@ impl Space for C02Space {
 }
 
 pub fn run(cfg: &Cfg, sink: &Arc<Sink>) -> Report {
-    let mut report = Report::new("states = repository contents reached from a labelled template whose blocks carry rules (sorted/unique/pattern/count and a Lua script rule, violating and not; 6 templates: Python line comments over two files, JS one-line block comments with content on the tag's line and a multi-byte character before the tag, JS tag on line 2 of a 3-line comment with a 3-line end comment, Markdown link-reference + HTML comments, nested, a file without trailing newline whose last line is an end tag) by whole-line insertions/deletions/replacements of content and outside lines and by character-level edits of the tag lines (inside the `<`…`>` span: value character, attribute inserted before `>`, last attribute removed, attribute inserted after `<block`; outside it: character before `<`, after `>`, end of the note, in the end-tag comment; first content character on the tag's line); in every state real `git diff -U<k>` is fed to the real code without path arguments, with `**` and with the first file as path argument, and the same tree is scanned in full; per block the edit classification {inside, tag-only, untouched, adjoining = don't care} fixes selection and the content flag, and every selected block's diagnostics must equal the full scan's; non-trivial = every state ≠ template");
+    let mut report = Report::new("states = repository contents reached from a labelled template whose blocks carry rules (sorted/unique/pattern/count and a Lua script rule, violating and not; 7 templates: Python line comments over two files, JS one-line block comments with content on the tag's line and a multi-byte character before the tag, JS tag on line 2 of a 3-line comment with a 3-line end comment, Markdown link-reference + HTML comments, nested, a file without trailing newline whose last line is an end tag, the JS template with CR LF line ends) by whole-line insertions/deletions/replacements of content and outside lines and by character-level edits of the tag lines (inside the `<`…`>` span: value character, attribute inserted before `>`, last attribute removed, attribute inserted after `<block`; outside it: character before `<`, after `>`, end of the note, in the end-tag comment; first content character on the tag's line); in every state real `git diff -U<k>` is fed to the real code without path arguments, with `**` and with the first file as path argument, and the same tree is scanned in full; per block the edit classification {inside, tag-only, untouched, adjoining = don't care} fixes selection and the content flag, and every selected block's diagnostics must equal the full scan's; non-trivial = every state ≠ template");
     report.assume("all lines of the templates are pairwise distinct and inserted lines are fresh, so git's minimal diff is the edit script");
     report.assume("rule verdicts are compared metamorphically with the full scan (C06–C09 decide the rule semantics themselves)");
     let n = templates().len();
